@@ -302,6 +302,9 @@ func (r *run) batch(sub []Op) (*failure, bool) {
 				r.ackBusy[it.tok] = true
 			case mc.state == cClosed && !mc.byPool && usedC[mc]:
 				// the request went out on an idle connection just before the upstream closed it: it must be reset
+				if r.h.Kind == pool.HTTP1 && !s.st.Wait(r.d/4, func(st pool.StreamState) bool { return st.Destroyed > 0 }) {
+					r.http1CloseWithoutReset(s)
+				}
 				if !s.st.Wait(r.d, func(st pool.StreamState) bool { return st.Destroyed > 0 }) {
 					return r.failf(true, "lease-survives-connection-close", "batch{%s }: request %q went out on c%d which the upstream closed, and was never reset", desc, it.tok, mc.id), false
 				}
